@@ -42,6 +42,7 @@ def M(name, fn, expect='failed'):
 
 M('H1 historical defect: np.random.shuffle in sample_square', lambda: edit('sample', 'rand.shuffle(I)', 'np.random.shuffle(I)'))
 M('H2 historical defect: lstsq(overwrite_b=True) on a view of a core in func_int_general', lambda: edit('func', 'overwrite_a=False, overwrite_b=False', 'overwrite_a=False, overwrite_b=True'))
+M('func_diff_matrix memoised with functools.lru_cache (seeded C10-12)', lambda: edit('func', 'def func_diff_matrix(', 'from functools import lru_cache\n\n\n@lru_cache(maxsize=128)\ndef func_diff_matrix('))
 M('copy removed: truncate (orth=False path)', lambda: edit('transformation', 'Z, p = teneva.copy(Y), 0', 'Z, p = Y, 0'))
 M('copy removed: orthogonalize', lambda: edit('transformation', '    Z = teneva.copy(Y)\n    p = 0', '    Z = Y\n    p = 0'))
 M('copy removed: orthogonalize_left (inplace=False)', lambda: edit('transformation', 'Z = Y if inplace else teneva.copy(Y)', 'Z = Y'))
